@@ -488,7 +488,12 @@ class C12(fw.Prop):
     def build(self, case):
         if "prog" in case:
             return named_program(case["prog"]), case["prog"]
-        p = progs.gen_program(random.Random(case["seed"]), case.get("root"))
+        kw = {}
+        if "size" in case:
+            kw["size"] = case["size"]
+        if "depth" in case:
+            kw["max_depth"] = case["depth"]
+        p = progs.gen_program(random.Random(case["seed"]), case.get("root"), **kw)
         try:
             return progs.run(p).hugr, p
         except TypeError:
@@ -589,8 +594,15 @@ class C12(fw.Prop):
             return "unclassified"
 
     def shrink(self, case):
-        # programs are regenerated from a seed: try smaller generator settings through neighbouring seeds
-        return []
+        # programs are regenerated from a seed: smaller generator settings (statements per region, nesting
+        # depth) for the same and for neighbouring seeds; the driver keeps the first variant that still fails
+        if "seed" not in case:
+            return
+        size, depth = case.get("size", 6), case.get("depth", 3)
+        for sz, dp in ((1, 1), (2, 1), (2, 2), (3, 2), (4, 2), (4, 3)):
+            if (sz, dp) < (size, depth) and sz <= size and dp <= depth:
+                for k in range(6):
+                    yield {**case, "seed": case["seed"] + k, "size": sz, "depth": dp}
 
     def neighbours(self, case, rng):
         if "seed" in case:
